@@ -87,15 +87,17 @@ type kase struct {
 // executor runs cases against the real code and spreads the lines over several trace files so that
 // TLC can validate them in parallel (balanced by number of steps).
 type executor struct {
-	r       *rt.Run
-	files   []*rt.Trace
-	load    []int
-	cases   int
-	steps   int
-	cerrs   int
-	errs    map[string]int
-	fams    map[string]int
-	outcomes map[string]int
+	r            *rt.Run
+	files        []*rt.Trace
+	load         []int
+	cases        int
+	steps        int
+	cerrs        int
+	unparsable   int
+	unparsableEx []string
+	errs         map[string]int
+	fams         map[string]int
+	outcomes     map[string]int
 }
 
 func newExecutor(r *rt.Run, nfiles int) *executor {
@@ -134,6 +136,8 @@ func compile(node ast.Node) (*compiled, error) {
 	c.pool = stateful.NewScopePool(ast.FindReferenceVariables(node))
 	return c, nil
 }
+
+const maxStatefulRun = 24
 
 var typedModes = []byte{'I', 'F', 'S', 'B', 'D'}
 
@@ -257,7 +261,13 @@ func (x *executor) run(k kase) {
 	built := k.n.Ast()
 	parsed, perr := k.n.Parsed()
 	if perr != nil {
-		rt.Fatalf("c04: cannot parse the text form %q of a generated AST: %v", k.n.Show(), perr)
+		// the text form is not accepted by the parser (e.g. a regex literal where the lexer expects an operator):
+		// only the built nodes are evaluated
+		x.unparsable++
+		if len(x.unparsableEx) < 12 {
+			x.unparsableEx = append(x.unparsableEx, k.n.Show()+" :: "+perr.Error())
+		}
+		parsed = built
 	}
 	if _, err := compile(built); err != nil {
 		if _, err2 := compile(parsed); err2 == nil {
@@ -273,6 +283,18 @@ func (x *executor) run(k kase) {
 	}
 	if _, err := compile(parsed); err != nil {
 		rt.Fatalf("c04: %q compiles as built nodes but not from text: %v", k.n.Show(), err)
+	}
+	if k.n.hasStateful() {
+		// the specification follows the function state step by step (recursively): keep such runs short
+		var short [][]step
+		for _, run := range k.runs {
+			for len(run) > maxStatefulRun {
+				short = append(short, run[:maxStatefulRun])
+				run = run[maxStatefulRun:]
+			}
+			short = append(short, run)
+		}
+		k.runs = short
 	}
 	runs := make([]any, len(k.runs))
 	n := 0
@@ -315,6 +337,11 @@ func (x *executor) run(k kase) {
 	line["runs"] = runs
 	x.steps += n
 	f := x.pick()
+	if x.cases <= 3 {
+		f = 0
+	} else if x.cases == 4 {
+		f = 1
+	}
 	x.load[f] += n + 5
 	x.files[f].Reset(line)
 	if k.n.Depth() >= 1 && len(k.runs) > 0 {
@@ -326,6 +353,8 @@ func (x *executor) finish(rule string, exhaustive bool) {
 	x.r.Extra["cases"] = x.cases
 	x.r.Extra["api_calls"] = x.steps
 	x.r.Extra["compile_errors"] = x.cerrs
+	x.r.Extra["text_form_not_parsable"] = x.unparsable
+	x.r.Extra["text_form_not_parsable_examples"] = x.unparsableEx
 	x.r.Extra["cases_per_family"] = x.fams
 	keys := make([]string, 0, len(x.outcomes))
 	for k := range x.outcomes {
